@@ -101,4 +101,10 @@ def fingerprint_url(url, unsplit=True, strip_suffix=False, platform_aware=False)
     if not unsplit:
         return result
 
-    return urlunsplit(result)[2:]
+    fingerprinted = urlunsplit(result)
+
+    # NOTE: there is no leading "//" to drop if the whole hostname was stripped
+    if fingerprinted.startswith("//"):
+        fingerprinted = fingerprinted[2:]
+
+    return fingerprinted
